@@ -69,6 +69,24 @@ def make_pairs(rng, count):
             crafted = [x / rng.choice([2, 4, 8]) for x in u]
             k = rng.choice([0, 0, Fraction(1, 8), Fraction(1, 4)])
             loc = rng.choice(["PENINSULA", loc])
+        if crafted is None and rng.random() < 0.08:
+            # inefficient cogeneration, a non-EPB electricity use that absorbs most of the exports, on-site production above the EPB use:
+            # the extra production changes the shares of the two sources in the exported electricity (k_exp > 0 matters here)
+            n = rng.choice([2, 3])
+            u = [gen.dy(rng, 64 * 5, 64 * 20) for _ in range(n)]
+            c = [gen.dy(rng, 64 * 60, 64 * 120) for _ in range(n)]
+            b = gen.Building()
+            b.n = n
+            b.add("CONSUMO", id=1, service="ILU", carrier="ELECTRICIDAD", values=u)
+            b.add("CONSUMO", id=1, service="NEPB", carrier="ELECTRICIDAD", values=[x * rng.choice([1, 1, 2]) for x in c])
+            b.add("CONSUMO", id=2, service="COGEN", carrier=rng.choice(["GASNATURAL", "GASOLEO"]), values=[x * 5 for x in c])
+            b.add("PRODUCCION", id=2, source="EL_COGEN", values=c)
+            b.add("PRODUCCION", id=3, source="EL_INSITU", values=u)
+            b.tags.add("cogen_exports_to_nepb")
+            crafted = [x * rng.choice([1, 2, 4, 8]) if rng.random() < 0.7 else Fraction(0) for x in u]
+            if not any(crafted):
+                crafted[0] = u[0]
+            k = rng.choice([Fraction(1, 4), Fraction(1, 2), Fraction(3, 4), 1])
         if crafted is None:
             epflow.tiny_use(rng, b, 0.1)      # the property has no floor on the values
         user = {}
